@@ -10,6 +10,7 @@
 #include <fcntl.h>
 #include <functional>
 #include <map>
+#include <regex>
 #include <set>
 #include <string>
 #include <unistd.h>
@@ -257,9 +258,67 @@ struct Tier {
 // Result of checking one case: empty = property held.
 typedef std::string Verdict;
 
+// Known findings (KNOWN_FINDINGS.txt, read-only): a genuine defect that was recorded instead of repaired is
+// excluded by construction - the failing case is counted, reported once as KNOWN-FINDING by the runner, and the
+// search continues behind it.  A failure that does not match a listed finding is reported as usual.
+struct KnownFinding {
+  std::string prop, text;
+  std::regex rx;
+};
+inline std::vector<KnownFinding> load_known_findings() {
+  std::vector<KnownFinding> v;
+  const char *p = getenv("VF_KNOWN");
+  std::string text;
+  if (!p || !read_file(p, text)) return v;
+  size_t pos = 0;
+  while (pos < text.size()) {
+    size_t e = text.find('\n', pos);
+    if (e == std::string::npos) e = text.size();
+    std::string line = text.substr(pos, e - pos);
+    pos = e + 1;
+    if (line.compare(0, 6, "known:") != 0) continue;
+    size_t a = line.find("property="), m = line.find("match=/");
+    if (a == std::string::npos || m == std::string::npos) continue;
+    size_t me = line.find("/ ", m + 7);
+    if (me == std::string::npos) continue;
+    KnownFinding k;
+    k.prop = line.substr(a + 9, line.find(' ', a) - (a + 9));
+    k.text = line.substr(me + 2);
+    try {
+      k.rx = std::regex(line.substr(m + 7, me - (m + 7)));
+    } catch (...) {
+      continue;
+    }
+    v.push_back(k);
+  }
+  return v;
+}
+
 struct Ctx {
   Stats st;
   Tier tier;
+  std::vector<KnownFinding> known;
+  bool known_loaded = false;
+  std::set<std::string> known_hits;
+  // returns "" when the verdict is a listed known finding of property `prop` (and records the hit)
+  Verdict filter_known(const char *prop, const Verdict &v) {
+    if (v.empty()) return v;
+    if (!known_loaded) {
+      known = load_known_findings();
+      known_loaded = true;
+    }
+    for (auto &k : known)
+      if (k.prop == prop && std::regex_search(v, k.rx)) {
+        st.excluded_known++;
+        if (known_hits.insert(k.text).second && !outdir.empty()) {
+          std::string all;
+          for (auto &t : known_hits) all += t + "\n";
+          write_file(outdir + "/known-hits.txt", all);
+        }
+        return "";
+      }
+    return v;
+  }
   int shard = 0, nshards = 1;
   uint64_t seed = 1;
   std::string outdir;
